@@ -711,6 +711,21 @@ TYPED = [
         ("work_drained_test", "iv_work_thread_got_event", ("cond", "if", 2), {}),
         ("work_take_seq", "iv_work_thread_got_event", ("stmt", "pool->seq_head", 0), {}),
         ("work_submit_seq", "iv_work_submit_pool", ("stmt", "pool->seq_tail", 0), {}),
+        # round 9: the guards of the critical sections (list predicates are parameters of the tests)
+        ("work_die_kicked", "__iv_work_thread_die", ("cond", "if", 0), {}),
+        ("work_die_on_list", "__iv_work_thread_die", ("cond", "if", 1), {}),
+        ("work_die_started", "__iv_work_thread_die", ("stmt", "pool->started_threads", 0), {}),
+        ("work_die_post", "__iv_work_thread_die", ("cond", "if", 3), {}),
+        ("work_got_was_idle", "iv_work_thread_got_event", ("cond", "if", 0), {}),
+        ("work_done_was_empty", "iv_work_thread_got_event", ("cond", "if", 1), {}),
+        ("work_not_shut", "iv_work_thread_got_event", ("cond", "if", 3), {}),
+        ("work_event_shut", "iv_work_event", ("cond", "if", 0), {}),
+        ("work_event_free", "iv_work_event", ("cond", "if", 1), {}),
+        ("work_needed_test", "iv_work_thread_needed", ("cond", "if", 0), {}),
+        ("work_submit_misuse", "iv_work_submit_pool", ("cond", "if", 0), {}),
+        ("work_submit_idle", "iv_work_submit_pool", ("cond", "if", 1), {}),
+        ("work_submit_room", "iv_work_submit_pool", ("cond", "if", 2), {}),
+        ("work_submit_owner", "iv_work_submit_pool", ("cond", "if", 3), {}),
     ]),
     ("LeafPopen.v", "iv_popen.c", [
         ("popen_signum", "iv_popen_running_child_timer", ("stmt", "signum", 0), {}),
